@@ -324,7 +324,7 @@ NSHARD = 16
 
 
 def plan(tier):
-    n = 400 if tier == 'quick' else 1500
+    n = 400 if tier == 'quick' else 5000
     return [{'kind': 'hyp', 'shard': i, 'examples': n} for i in range(NSHARD)]
 
 
